@@ -234,6 +234,13 @@ func runC09(c *Ctx) {
 		hooked3 = hooked3.WithOptions(zap.Hooks(nop))
 	}
 	w.loggers = append(w.loggers, hooked3)
+	// a logger whose only destination was opened through zap.Open from a
+	// registered scheme: the sink itself is not synchronised, what Open hands
+	// back is
+	if ws, closeOpen, err := zap.Open("zsim://c09/only"); err == nil {
+		defer closeOpen()
+		w.loggers = append(w.loggers, zap.New(zapcore.NewCore(w.encoder(false), ws, w.lvl)))
+	}
 	for _, l := range w.loggers {
 		w.sugars = append(w.sugars, l.Sugar())
 	}
